@@ -128,6 +128,13 @@ fn sch(n: &str) -> Option<Ty> {
     table::col_type(n)
 }
 
+/// Triage aid only: `C04_SKIP=guar:6,phys` leaves out the named configurations
+/// (prefix match) so that exploration can continue past an already understood
+/// finding. Never set by `./check`; recorded in the evidence when set.
+fn skip_list() -> Vec<String> {
+    std::env::var("C04_SKIP").ok().map(|s| s.split(',').filter(|x| !x.is_empty()).map(|x| x.to_string()).collect()).unwrap_or_default()
+}
+
 const CONFIGS: [(bool, u32); 4] = [(true, 3), (false, 3), (true, 1), (false, 1)];
 
 fn cfg_label(canon: bool, cycles: u32) -> String {
@@ -136,7 +143,15 @@ fn cfg_label(canon: bool, cycles: u32) -> String {
 
 fn check_expr(e: &E, only: Option<&str>, thorough: bool, st: &mut Stats) -> Vec<Viol> {
     let mut viols = vec![];
-    let want = |c: &str| only.map(|o| o == c).unwrap_or(true);
+    let skip = skip_list();
+    if only.is_none() && skip.iter().any(|s| s == "shape:neg_bit") {
+        let has_neg = e.contains(&|x| matches!(x, E::Neg(_)));
+        let has_bit = e.contains(&|x| matches!(x, E::Bin(_, o, _) if o.is_bit()));
+        if has_neg && has_bit {
+            return vec![];
+        }
+    }
+    let want = |c: &str| only.map(|o| o == c).unwrap_or_else(|| !skip.iter().any(|s| c.starts_with(s.as_str())));
     let df0 = dfx::to_df(e);
     let coerced = match mc_core::catch(|| dfx::coerce(df0)) {
         Ok(Ok(x)) => x,
@@ -620,6 +635,9 @@ fn explore(ctx: &Ctx) {
         }
         flush(ctx, st);
     });
+    if !skip_list().is_empty() {
+        ctx.mark_capped(&format!("triage run: configurations skipped via C04_SKIP={:?}", skip_list()));
+    }
 }
 
 fn replay(v: &Value) -> Result<(), String> {
